@@ -64,6 +64,7 @@ type lane struct {
 	fke                             *fakeKE
 	ntp, alt, other                 *net.UDPConn
 	cs319, cs320, csOther           *net.UDPConn
+	scFwd, scHop                    *net.UDPConn // forward target; first hop of the SCION client
 	seq                             int
 	restarts                        int
 	t                               *testing.T
@@ -98,7 +99,8 @@ func newLane(t *testing.T, id int, base int) (*lane, error) {
 		ip   string
 		port int
 	}{{&l.ntp, l.fakeIP, ntpPort}, {&l.alt, l.fakeIP, altPort}, {&l.other, l.otherIP, ntpPort},
-		{&l.cs319, l.fakeIP, 319}, {&l.cs320, l.fakeIP, 320}, {&l.csOther, l.otherIP, 320}} {
+		{&l.cs319, l.fakeIP, 319}, {&l.cs320, l.fakeIP, 320}, {&l.csOther, l.otherIP, 320},
+		{&l.scFwd, l.fakeIP, 31001}, {&l.scHop, l.fakeIP, 31000}} {
 		if *x.c, err = udpListen(x.ip, x.port); err != nil {
 			return nil, err
 		}
@@ -112,7 +114,7 @@ func (l *lane) close() {
 	if l.fke != nil {
 		l.fke.close()
 	}
-	for _, c := range []*net.UDPConn{l.ntp, l.alt, l.other, l.cs319, l.cs320, l.csOther} {
+	for _, c := range []*net.UDPConn{l.ntp, l.alt, l.other, l.cs319, l.cs320, l.csOther, l.scFwd, l.scHop} {
 		if c != nil {
 			c.Close()
 		}
@@ -133,7 +135,7 @@ func (l *lane) ensureSrv() error {
 	}
 	var lastErr error
 	for attempt := 0; attempt < 3; attempt++ {
-		p, err := startProc("server", "C08_IP="+l.srvIP, "C08_PORT="+strconv.Itoa(ntpPort), "C08_CSPTP=1", "C08_LOG=debug")
+		p, err := startProc("server", "C08_IP="+l.srvIP, "C08_PORT="+strconv.Itoa(ntpPort), "C08_CSPTP=1", "C08_SCION=1", "USE_MOCK_KEYS=true", "C08_LOG=debug")
 		if err != nil {
 			lastErr = err
 			time.Sleep(200 * time.Millisecond)
@@ -158,7 +160,7 @@ func (l *lane) ensureCli() error {
 	if l.cli != nil && !l.cli.exited() {
 		return nil
 	}
-	p, err := startProc("client", "C08_LOG=error")
+	p, err := startProc("client", "C08_LOG=error", "USE_MOCK_KEYS=true")
 	if err != nil {
 		return err
 	}
@@ -1140,6 +1142,10 @@ func TestC08(t *testing.T) {
 						l.runCsSrv(tc, &c, sg)
 					case "csptpcli":
 						l.runCsCli(tc, &c, sg)
+					case "scsrv":
+						l.runScSrv(tc, &c, sg)
+					case "sccli":
+						l.runScCli(tc, &c, sg)
 					default:
 						t.Errorf("unknown kind %q", c.Kind)
 					}
